@@ -122,6 +122,17 @@ def reuseGate (L : Lang) (diffs : List (Nat × Nat)) (t : Tree) (off pos state :
   else if !canReuseFirstLeaf L state t (L.tableEntry state (leafSymbol t)) then .firstLeaf
   else .reuse
 
+/-- ALL tests of the refusal block of `ts_parser__reuse_node` that fail for the candidate, in the
+order of the C code.  The parser logs the first; a harmless reordering of the (independent) tests
+would log another member of this list — the candidate is refused and the iterator moves the same
+way for every one of them, so the replay accepts any member (and counts a non-first one). -/
+def refusalReasons (diffs : List (Nat × Nat)) (t : Tree) (off : Nat) (lineDiff : Bool) : List Verdict :=
+  (if t.data.hasChanges then [Verdict.hasChanges] else []) ++
+  (if t.data.symbol = symError then [Verdict.isError] else []) ++
+  (if t.data.isMissing then [Verdict.isMissing] else []) ++
+  (if t.data.fragileLeft || t.data.fragileRight then [Verdict.isFragile] else []) ++
+  (if rangeIntersects diffs off (diffSpanEnd t off) || lineDiff then [Verdict.rangeDiff] else [])
+
 /-! ## The old-tree iterator (`reusable_node.h`) -/
 
 structure Entry where
